@@ -1,5 +1,6 @@
 import CacheVerif.Proofs.DeepAppend
 import CacheVerif.Proofs.TableRefine
+import CacheVerif.Proofs.StoreSpec
 /-!
 # Copying entries bucket-wise with `appendToBucketOf` is M3's `copyAll`
 
@@ -167,5 +168,102 @@ theorem append_then_load [Inhabited V] (fuel : Nat) (hf : 8 ≤ fuel) (h : Heap 
     rw [load_eq_lookup fuel hf h' x c' (hc' x hx) hne' hlen' hrep', hflat, hlook x]
     simp only [hxk, if_false]
     cases lookup x (flat c) <;> rfl
+
+end Proofs.CopyRep
+
+/-! ### update / delete, then load, on the printed `Load` -/
+namespace Proofs.CopyRep
+open Deep.T Model.Words Model.Table Proofs.DeepLoad Proofs.TableRefine Proofs.StoreSpec
+
+variable {K V : Type} [DecidableEq K]
+
+theorem lookup_first (k : K) (old : V) : ∀ (s : Slots K V) (p : Nat), s[p]? = some (some (k, old)) → FirstAt k s p →
+    lookup k s = some old := by
+  intro s
+  induction s with
+  | nil => intro p h; simp at h
+  | cons a r ih =>
+    intro p h hfirst
+    cases p with
+    | zero => simp at h; subst h; simp [lookup]
+    | succ p =>
+      have hr : r[p]? = some (some (k, old)) := by simpa using h
+      have hf : FirstAt k r p := fun q hq x w hx => hfirst (q + 1) (by omega) x w (by simpa using hx)
+      rcases a with _ | ⟨k', v'⟩
+      · simpa [lookup] using ih p hr hf
+      · have hne : k' ≠ k := hfirst 0 (by omega) k' v' (by simp)
+        simpa [lookup, hne] using ih p hr hf
+
+/-- **in-place update / delete of the slot the search found, then the printed `MapOf.Load`** on the resulting heap: after
+the update `Load k` returns the new value, after the delete it reports absence, and in both cases every other key of that root
+bucket reads as before (keys of the chain pairwise distinct) -/
+theorem store_then_load [Inhabited V] (fuel : Nat) (hf : 8 ≤ fuel) (h : Heap K V) (k : K) (c : List (BucketOf K V))
+    (hc : h.chains[(bidxOf h k).toNat]? = some c) (hne : c ≠ []) (hfuel : c.length ≤ fuel)
+    (hrep : ∀ b ∈ c, RepB (hkOf h) b) (hnd : (chainKeys (flat c)).Nodup)
+    (j i : Nat) (b : BucketOf K V) (hb : c[j]? = some b) (hi : i < 5) (old v : V)
+    (hs : b.entries[i]? = some (some (k, old))) (hfirst : FirstAt k (flat c) (5 * j + i)) :
+    let hu : Heap K V := { h with chains := (h.chains.set (bidxOf h k).toNat (c.set j ⟨b.metaw, b.entries.set i (some (k, v))⟩)) }
+    let hd : Heap K V := { h with chains := (h.chains.set (bidxOf h k).toNat
+      (c.set j ⟨Gen.setByte b.metaw Gen.emptyMetaSlot i, b.entries.set i none⟩)) }
+    call fuel hu Gen.Deep.T_MapOf_Load [.key k] = some [.val v, .bool true] ∧
+    call fuel hd Gen.Deep.T_MapOf_Load [.key k] = some [.zeroV, .bool false] ∧
+    ∀ x, bidxOf h x = bidxOf h k → x ≠ k →
+      call fuel hu Gen.Deep.T_MapOf_Load [.key x] = call fuel h Gen.Deep.T_MapOf_Load [.key x] ∧
+      call fuel hd Gen.Deep.T_MapOf_Load [.key x] = call fuel h Gen.Deep.T_MapOf_Load [.key x] := by
+  intro hu hd
+  have hci : (bidxOf h k).toNat < h.chains.length := by
+    rcases Nat.lt_or_ge (bidxOf h k).toNat h.chains.length with hl | hg
+    · exact hl
+    · rw [List.getElem?_eq_none hg] at hc; cases hc
+  have hU := update_is_upd (hkOf h) c hrep j i b hb hi k old v hs hfirst
+  have hD := delete_is_del (hkOf h) c hrep j i b hb hi k old hs hfirst
+  have hjl : j < c.length := by
+    rcases Nat.lt_or_ge j c.length with hl | hg
+    · exact hl
+    · rw [List.getElem?_eq_none hg] at hb; cases hb
+  have hlenset : ∀ b' : BucketOf K V, (c.set j b').length = c.length := fun b' => by simp
+  have hrepset : ∀ b' : BucketOf K V, RepB (hkOf h) b' → ∀ y ∈ c.set j b', RepB (hkOf h) y := by
+    intro b' hb' y hy
+    rcases List.mem_or_eq_of_mem_set hy with hm | he
+    · exact hrep y hm
+    · subst he; exact hb'
+  have hneset : ∀ b' : BucketOf K V, c.set j b' ≠ [] := fun b' hcon => by
+    have hl := congrArg List.length hcon
+    rw [List.length_set, List.length_nil] at hl
+    omega
+  have hold : lookup k (flat c) = some old :=
+    lookup_first k old (flat c) (5 * j + i)
+      (by rw [flat_get c j i b (fun b hb => (hrep b hb).1) hb hi, hs]) hfirst
+  have hlu := fun x => lookup_upd k x v (flat c) (by simp [hold])
+  have hld := fun x => lookup_del k x (flat c) hnd
+  -- generic: Load on a heap whose chain ci was replaced by c'
+  have key : ∀ (c' : List (BucketOf K V)), c' ≠ [] → c'.length ≤ fuel → (∀ y ∈ c', RepB (hkOf h) y) → ∀ x,
+      bidxOf h x = bidxOf h k →
+      call fuel ({ h with chains := (h.chains.set (bidxOf h k).toNat c') } : Heap K V) Gen.Deep.T_MapOf_Load [.key x] =
+        some (match lookup x (flat c') with
+          | some w => [.val w, .bool true]
+          | none => [.zeroV, .bool false]) := by
+    intro c' hne' hlen' hrep' x hx
+    have hb1 : bidxOf ({ h with chains := (h.chains.set (bidxOf h k).toNat c') } : Heap K V) x = bidxOf h k := by
+      rw [← hx]; simp [bidxOf, hashOf]
+    exact load_eq_lookup fuel hf _ x c' (by rw [hb1]; simp [hci]) hne' hlen' hrep'
+  have orig : ∀ x, bidxOf h x = bidxOf h k →
+      call fuel h Gen.Deep.T_MapOf_Load [.key x] =
+        some (match lookup x (flat c) with
+          | some w => [.val w, .bool true]
+          | none => [.zeroV, .bool false]) := by
+    intro x hx
+    exact load_eq_lookup fuel hf h x c (by rw [hx]; exact hc) hne hfuel hrep
+  refine ⟨?_, ?_, ?_⟩
+  · rw [key _ (hneset _) (by rw [hlenset]; exact hfuel) (hrepset _ hU.2) k rfl, hU.1, hlu k]
+    simp
+  · rw [key _ (hneset _) (by rw [hlenset]; exact hfuel) (hrepset _ hD.2) k rfl, hD.1, hld k]
+    simp
+  · intro x hx hxk
+    refine ⟨?_, ?_⟩
+    · rw [key _ (hneset _) (by rw [hlenset]; exact hfuel) (hrepset _ hU.2) x hx, hU.1, hlu x, orig x hx]
+      simp [hxk]
+    · rw [key _ (hneset _) (by rw [hlenset]; exact hfuel) (hrepset _ hD.2) x hx, hD.1, hld x, orig x hx]
+      simp [hxk]
 
 end Proofs.CopyRep
